@@ -552,6 +552,8 @@ def _batch(h, prop, tier, batch_seed, args, t0):
         f"sim_s={agg['sim_s']:.1f} steps={agg['steps']} wall={wall:.1f}s runs/h={evidence['coverage']['runs_per_hour']}"
     )
     if args.verbose:
+        for key, info in sorted(agg["violations"].items())[:12]:
+            print(f"  seen: {key} seed={info['seed']}: {info['v']['message'][:300]}")
         print("faults:", json.dumps(evidence["coverage"]["faults_fired"]))
         print("probes:", json.dumps(evidence["coverage"]["probes"]))
     if mism:
